@@ -37,12 +37,26 @@ class Sabotage(BaseException):
     """a BaseException that is not an Exception"""
 
 
+# what the injected exception *says* must not matter: a failure whose message happens to contain a word the status mapping looks for
+# (bound, infeasible, maximum ... iterations, unbounded, positive directional derivative) is still a failure
+MESSAGES = ["injected", "x0 violates bound constraints", "index 2 is out of bounds for axis 0 with size 2", "the problem is infeasible",
+            "maximum number of iterations has been exceeded", "objective is unbounded", "Positive directional derivative for linesearch",
+            "Optimization terminated successfully"]
+_msg_counter = [0]
+
+
+def _msg():
+    _msg_counter[0] += 1
+    return MESSAGES[_msg_counter[0] % len(MESSAGES)]
+
+
 EXC = {
-    "ValueError": lambda: ValueError("injected"),
-    "FloatingPointError": lambda: FloatingPointError("injected"),
-    "MemoryError": lambda: MemoryError("injected"),
+    "ValueError": lambda: ValueError(_msg()),
+    "FloatingPointError": lambda: FloatingPointError(_msg()),
+    "MemoryError": lambda: MemoryError(_msg()),
     "KeyboardInterrupt": lambda: KeyboardInterrupt(),
-    "BaseException": lambda: Sabotage("injected"),
+    "BaseException": lambda: Sabotage(_msg()),
+    "IndexError": lambda: IndexError(_msg()),
 }
 
 _x = ["vec", "x"]
